@@ -17,17 +17,20 @@
 (*                      wr = restore-target write fails.                   *)
 (* Filler files (never faulted) only enter the skip-ratio arithmetic.      *)
 (*                                                                         *)
-(* AsWritten = TRUE  : restoreDataFiles logs a failed file and continues   *)
-(*                     (restore.go: "Failed to restore backup file,        *)
-(*                     skipping"); the restore still ends "completed".     *)
-(* AsWritten = FALSE : the repaired behaviour (a failed file fails the     *)
-(*                     restore).                                           *)
+(* LegacySkip = FALSE : the code as it is now (arc 0fc80ea): a file that   *)
+(*                      streamRestoreFile cannot restore is logged and     *)
+(*                      counted, the loop goes on with the other files,    *)
+(*                      and restoreDataFiles returns "restore incomplete"  *)
+(*                      at the end, so the restore ends "failed".          *)
+(* LegacySkip = TRUE  : the behaviour before 0fc80ea (Warn + continue, the *)
+(*                      restore still ends "completed").  Negative control *)
+(*                      only: TLC must reject RestoreSound for it.         *)
 (***************************************************************************)
 EXTENDS Naturals, Sequences, FiniteSets, TLC, Json
 
 CONSTANTS Order,      \* Seq of file ids in the order the code visits them
           Fillers,    \* set of possible numbers of never-faulted filler files
-          AsWritten,  \* BOOLEAN, see above
+          LegacySkip, \* BOOLEAN, see above
           Emit        \* TRUE: print one TRACE line per terminal state
 
 \* visiting orders used by the configs: parquet group first (listing order), then Iceberg group
@@ -49,9 +52,10 @@ VARIABLES present,   \* SUBSET Files : the tree
           bstatus,   \* "running" | "completed" | "failed"
           mskipped,  \* manifest.SkippedFiles as written (0 if no manifest)
           restored,  \* files present in the restore target
+          rfailed,   \* number of files restoreDataFiles could not restore (failedFiles)
           rstatus    \* "none" | "completed" | "failed"
 
-vars == <<present, fault, filler, pc, i, stored, skipped, bstatus, mskipped, restored, rstatus>>
+vars == <<present, fault, filler, pc, i, stored, skipped, bstatus, mskipped, restored, rfailed, rstatus>>
 
 Init == /\ present \in (SUBSET Files) \ {{}}
         /\ fault \in [Files -> Faults]
@@ -59,7 +63,7 @@ Init == /\ present \in (SUBSET Files) \ {{}}
         /\ filler \in Fillers
         /\ pc = "backup" /\ i = 1
         /\ stored = {} /\ skipped = 0 /\ bstatus = "running" /\ mskipped = 0
-        /\ restored = {} /\ rstatus = "none"
+        /\ restored = {} /\ rfailed = 0 /\ rstatus = "none"
 
 Total == Cardinality(present) + filler
 
@@ -68,32 +72,32 @@ Total == Cardinality(present) + filler
 BackupSkipAbsent ==
     /\ pc = "backup" /\ i <= Len(Order) /\ Order[i] \notin present
     /\ i' = i + 1
-    /\ UNCHANGED <<present, fault, filler, pc, stored, skipped, bstatus, mskipped, restored, rstatus>>
+    /\ UNCHANGED <<present, fault, filler, pc, stored, skipped, bstatus, mskipped, restored, rfailed, rstatus>>
 
 BackupCopy ==
     /\ pc = "backup" /\ i <= Len(Order) /\ Order[i] \in present
     /\ fault[Order[i]] \notin {"rb", "wb"}
     /\ stored' = stored \cup {Order[i]} /\ i' = i + 1
-    /\ UNCHANGED <<present, fault, filler, pc, skipped, bstatus, mskipped, restored, rstatus>>
+    /\ UNCHANGED <<present, fault, filler, pc, skipped, bstatus, mskipped, restored, rfailed, rstatus>>
 
 \* errBackupRead: skippable
 BackupSkipUnreadable ==
     /\ pc = "backup" /\ i <= Len(Order) /\ Order[i] \in present
     /\ fault[Order[i]] = "rb"
     /\ skipped' = skipped + 1 /\ i' = i + 1
-    /\ UNCHANGED <<present, fault, filler, pc, stored, bstatus, mskipped, restored, rstatus>>
+    /\ UNCHANGED <<present, fault, filler, pc, stored, bstatus, mskipped, restored, rfailed, rstatus>>
 
 \* any other failure aborts the backup: no manifest is written
 BackupWriteFatal ==
     /\ pc = "backup" /\ i <= Len(Order) /\ Order[i] \in present
     /\ fault[Order[i]] = "wb"
     /\ bstatus' = "failed" /\ pc' = "rmanifest"
-    /\ UNCHANGED <<present, fault, filler, i, stored, skipped, mskipped, restored, rstatus>>
+    /\ UNCHANGED <<present, fault, filler, i, stored, skipped, mskipped, restored, rfailed, rstatus>>
 
 BackupLoopEnd ==
     /\ pc = "backup" /\ i > Len(Order)
     /\ pc' = "ratio"
-    /\ UNCHANGED <<present, fault, filler, i, stored, skipped, bstatus, mskipped, restored, rstatus>>
+    /\ UNCHANGED <<present, fault, filler, i, stored, skipped, bstatus, mskipped, restored, rfailed, rstatus>>
 
 \* checkSkipRatio: float64(skipped) > 0.10 * float64(total)
 RatioCheck ==
@@ -101,12 +105,12 @@ RatioCheck ==
     /\ IF skipped > 0 /\ skipped * 10 > Total
          THEN bstatus' = "failed" /\ pc' = "rmanifest"
          ELSE bstatus' = bstatus /\ pc' = "manifest"
-    /\ UNCHANGED <<present, fault, filler, i, stored, skipped, mskipped, restored, rstatus>>
+    /\ UNCHANGED <<present, fault, filler, i, stored, skipped, mskipped, restored, rfailed, rstatus>>
 
 WriteManifest ==
     /\ pc = "manifest"
     /\ mskipped' = skipped /\ bstatus' = "completed" /\ pc' = "rmanifest"
-    /\ UNCHANGED <<present, fault, filler, i, stored, skipped, restored, rstatus>>
+    /\ UNCHANGED <<present, fault, filler, i, stored, skipped, restored, rfailed, rstatus>>
 
 -----------------------------------------------------------------------------
 \* RestoreBackup into an empty target: GetBackup first
@@ -115,33 +119,32 @@ RestoreReadManifest ==
     /\ IF bstatus = "completed"
          THEN pc' = "restore" /\ i' = 1 /\ rstatus' = rstatus
          ELSE pc' = "done" /\ i' = i /\ rstatus' = "failed"     \* backup not found
-    /\ UNCHANGED <<present, fault, filler, stored, skipped, bstatus, mskipped, restored>>
+    /\ UNCHANGED <<present, fault, filler, stored, skipped, bstatus, mskipped, restored, rfailed>>
 
 RestoreSkipNotStored ==
     /\ pc = "restore" /\ i <= Len(Order) /\ Order[i] \notin stored
     /\ i' = i + 1
-    /\ UNCHANGED <<present, fault, filler, pc, stored, skipped, bstatus, mskipped, restored, rstatus>>
+    /\ UNCHANGED <<present, fault, filler, pc, stored, skipped, bstatus, mskipped, restored, rfailed, rstatus>>
 
 RestoreCopy ==
     /\ pc = "restore" /\ i <= Len(Order) /\ Order[i] \in stored
     /\ fault[Order[i]] \notin {"rr", "wr"}
     /\ restored' = restored \cup {Order[i]} /\ i' = i + 1
-    /\ UNCHANGED <<present, fault, filler, pc, stored, skipped, bstatus, mskipped, rstatus>>
+    /\ UNCHANGED <<present, fault, filler, pc, stored, skipped, bstatus, mskipped, rfailed, rstatus>>
 
-\* streamRestoreFile failed
+\* streamRestoreFile failed: Warn, count (unless LegacySkip), continue with the next file
 RestoreFileFails ==
     /\ pc = "restore" /\ i <= Len(Order) /\ Order[i] \in stored
     /\ fault[Order[i]] \in {"rr", "wr"}
-    /\ IF AsWritten
-         THEN /\ i' = i + 1                                     \* Warn + continue
-              /\ UNCHANGED <<pc, rstatus>>
-         ELSE /\ rstatus' = "failed" /\ pc' = "done" /\ i' = i
-    /\ UNCHANGED <<present, fault, filler, stored, skipped, bstatus, mskipped, restored>>
+    /\ i' = i + 1
+    /\ rfailed' = IF LegacySkip THEN rfailed ELSE rfailed + 1
+    /\ UNCHANGED <<present, fault, filler, pc, stored, skipped, bstatus, mskipped, restored, rstatus>>
 
 RestoreLoopEnd ==
     /\ pc = "restore" /\ i > Len(Order)
-    /\ rstatus' = "completed" /\ pc' = "done"
-    /\ UNCHANGED <<present, fault, filler, i, stored, skipped, bstatus, mskipped, restored>>
+    /\ rstatus' = IF rfailed > 0 THEN "failed" ELSE "completed"
+    /\ pc' = "done"
+    /\ UNCHANGED <<present, fault, filler, i, stored, skipped, bstatus, mskipped, restored, rfailed>>
 
 Done == pc = "done" /\ UNCHANGED vars
 
@@ -158,8 +161,10 @@ TypeOK == /\ stored \subseteq present /\ restored \subseteq stored
           /\ rstatus \in {"none", "completed", "failed"}
 
 \* --- the property, clause by clause (judged at the terminal state) ---
-\* (a) a restore that reports success reproduced every backed-up file
-RestoreSound == (pc = "done" /\ rstatus = "completed") => restored = stored
+\* (a) a restore that reports success reproduced every backed-up file, and a restore that could not
+\*     bring back a backed-up file does not report success
+RestoreSound == /\ (pc = "done" /\ rstatus = "completed") => restored = stored
+                /\ (pc = "done" /\ bstatus = "completed" /\ restored # stored) => rstatus = "failed"
 \* (b) a backup that reports success and skipped unreadable files records it
 BackupRecordsSkips == (bstatus = "completed" /\ stored # present) => mskipped > 0
 \* (c) a completed backup holds every readable file of the tree (nothing is dropped silently)
